@@ -4,7 +4,7 @@ namespace BdModel.Sched
 
 variable {c : Cfg} {s s' : State} {i j : Nat} {ok : Bool}
 
-theorem updN_apply (f : Nat → NodeSt) (i : Nat) (v : NodeSt) (j : Nat) :
+theorem updN_apply_ob (f : Nat → NodeSt) (i : Nat) (v : NodeSt) (j : Nat) :
     updN f i v j = if j = i then v else f j := rfl
 
 @[simp] theorem updN_same (f : Nat → NodeSt) (i : Nat) (v : NodeSt) : updN f i v i = v := by
@@ -18,7 +18,7 @@ def afterPC (c : Cfg) (s : State) (i : Nat) (ok : Bool) : PC :=
   if (c.node i).rep && (ok || (c.node i).contFail) && !s.canceled then .check
   else if !ok && c.doneChan then .deferred else .tail
 
-theorem afterExec_eq (c : Cfg) (s : State) (i : Nat) (ok : Bool) :
+theorem afterExec_eq_ob (c : Cfg) (s : State) (i : Nat) (ok : Bool) :
     afterExec c s i ok =
       s.setNode i { (s.nd i) with
         doneCnt := if (s.nd i).status != .cancel then (s.nd i).doneCnt + 1 else (s.nd i).doneCnt,
@@ -36,12 +36,12 @@ theorem afterPC_norep (h : (c.node i).rep = false) :
 /-- case analysis on one transition: one goal per enabled branch of `step`, with `s'` substituted -/
 macro "step_cases" a:ident hs:ident : tactic =>
   `(tactic| (cases $a:ident <;>
-      simp only [step, afterExec_eq, State.setNode, updN_same] at $hs:ident <;>
+      simp only [step, afterExec_eq_ob, State.setNode, updN_same] at $hs:ident <;>
       (repeat' split at $hs:ident) <;> (try cases $hs:ident)))
 
 /-! ### list predicates of the model as quantified statements -/
 
-theorem isFinished_iff (c : Cfg) (s : State) :
+theorem isFinished_iff_ob (c : Cfg) (s : State) :
     isFinished c s = true ↔ ∀ j, j < c.n → (s.nd j).status ≠ .running ∧ (s.nd j).status ≠ .none := by
   simp [isFinished, List.all_eq_true]
 
@@ -137,7 +137,7 @@ theorem readyFold_cancel (c : Cfg) (s : State) :
       cases (s.nd d).status <;> simp [readyEffect] <;> split <;> simp
     · right; exact ⟨d', List.mem_cons_of_mem _ hd', h1⟩
 
-theorem readyEffect_block {st : NStatus} {cf cs : Bool} {l : NStatus}
+theorem readyEffect_block_ob {st : NStatus} {cf cs : Bool} {l : NStatus}
     (h : readyEffect st cf cs = .block l) : l = .cancel ∨ l = .skipped := by
   unfold readyEffect at h
   cases st <;> grind
@@ -159,10 +159,10 @@ theorem readyFold_label (c : Cfg) (s : State) (l : NStatus) :
     · right
       simp only [Option.some.injEq] at h1
       subst h1
-      exact readyEffect_block he
+      exact readyEffect_block_ob he
     · right; exact h1
 
-theorem isReady_label (c : Cfg) (s : State) (i : Nat) (l : NStatus) (h : (isReady c s i).2 = some l) :
+theorem isReady_label_ob (c : Cfg) (s : State) (i : Nat) (l : NStatus) (h : (isReady c s i).2 = some l) :
     l = .cancel ∨ l = .skipped := by
   unfold isReady at h
   simpa using readyFold_label c s l _ _ h
